@@ -145,7 +145,7 @@ fn emit_late(world: &mut World) {
     }
 }
 
-fn make_app(auth: u8, dedicated: bool) -> App {
+fn make_app(auth: u8, dedicated: bool, prequeued: u8) -> App {
     let mut app = App::new();
     let auth_method = if auth == 0 { AuthMethod::None } else { AuthMethod::ProtocolCheck };
     let plugins = RepliconPlugins.set(RepliconSharedPlugin { auth_method }).set(ServerPlugin { tick_policy: TickPolicy::EveryFrame, ..Default::default() });
@@ -153,6 +153,14 @@ fn make_app(auth: u8, dedicated: bool) -> App {
         app.add_plugins((MinimalPlugins, plugins.build().disable::<ClientPlugin>().disable::<ClientEventPlugin>()));
     } else {
         app.add_plugins((MinimalPlugins, plugins));
+    }
+    if prequeued > 0 {
+        // "Can be used for regular events that were previously registered": the game registered `CEv` as a plain Bevy event
+        // and has already queued some (e.g. a plugin's `build`) when the networking layer turns it into a client event
+        app.add_event::<CEv>();
+        for s in 1..=prequeued as u32 {
+            app.world_mut().send_event(CEv(s, tag(s)));
+        }
     }
     app.add_client_event::<CEv>(Channel::Ordered)
         .add_client_trigger::<CTrig>(Channel::Ordered)
@@ -244,12 +252,19 @@ pub enum Step {
 pub struct Case {
     pub auth: u8,
     pub dedicated: bool,
+    /// number of `CEv` events the game queued before `add_client_event::<CEv>()` was called (judged like an emission from
+    /// `Last` of a frame before the first one: exactly one path once the status is steady)
+    #[serde(default)]
+    pub prequeued: u8,
     pub steps: Vec<Step>,
 }
 
 pub fn run(c: &Case) -> Outcome {
-    let mut app = make_app(c.auth, c.dedicated);
-    let mut seq = 0u32;
+    let mut app = make_app(c.auth, c.dedicated, c.prequeued);
+    let mut seq = c.prequeued as u32;
+    for s in 1..=c.prequeued as u32 {
+        app.world_mut().resource_mut::<Seen>().late.push((s, 0));
+    }
     let mut net: BTreeMap<u32, u32> = BTreeMap::new();
     let mut fail: Option<Fail> = None;
     let mut transitions_near_emit = false;
@@ -416,7 +431,10 @@ pub fn run(c: &Case) -> Outcome {
             return Outcome::failed(Fail::new("C13.sender", format!("local event {s} observed with a sender other than the local server")));
         }
         let st = &seen.status_by_frame;
-        if !c.dedicated && f + 2 < st.len() && st[f] == st[f + 1] && st[f] == st[f + 2] && st[f] != 1 {
+        // (events queued before the registration exist before frame 0, while the status is `Disconnected`: a client that is
+        // connected in frame 0 has just connected, and `ClientSet::ResetEvents` then discards pending events by design)
+        let prequeued = s <= c.prequeued as u32;
+        if !c.dedicated && f + 2 < st.len() && st[f] == st[f + 1] && st[f] == st[f + 2] && st[f] != 1 && !(prequeued && st[f] != 0) {
             let (want_local, want_net) = if st[f] == 0 { (1, 0) } else { (0, 1) };
             if local_fc != want_local || n != want_net {
                 return Outcome::failed(Fail::new(
@@ -440,6 +458,9 @@ pub fn run(c: &Case) -> Outcome {
     if c.dedicated {
         out.classes.push("dedicated");
     }
+    if c.prequeued > 0 {
+        out.classes.push("events_queued_before_the_registration");
+    }
     out
 }
 
@@ -459,7 +480,8 @@ fn step() -> impl Strategy<Value = Step> {
 }
 
 fn case_strategy() -> impl Strategy<Value = Case> {
-    (0u8..2, proptest::bool::weighted(0.2), proptest::collection::vec(step(), 1..40)).prop_map(|(auth, dedicated, steps)| Case { auth, dedicated, steps })
+    (0u8..2, proptest::bool::weighted(0.2), prop_oneof![3 => Just(0u8), 1 => 1u8..4], proptest::collection::vec(step(), 1..40))
+        .prop_map(|(auth, dedicated, prequeued, steps)| Case { auth, dedicated, prequeued, steps })
 }
 
 
